@@ -7,7 +7,8 @@ import Mathlib.Tactic.Lemma
 `Step n s s'` says that going from state `s` to state `s'` respects the watermark `n`
 (`n ≤ s.size`): the heap only grows, class tags of existing objects never change, no
 non-benign field of an object older than `n` changes, and every write logged in between targets
-an object at or above `n` or a benign field.  Every modelled operation is a `Step` for every
+an object at or above `n` or an exempt field (a benign cache, or the content of an array-typed
+`_constant`, which `ndarray += x` mutates in place — see `St.addConst`).  Every modelled operation is a `Step` for every
 watermark below the heap size at its start.
 -/
 namespace CuqiVerif.C11
@@ -88,8 +89,8 @@ structure Step (n : Nat) (s s' : St) : Prop where
   hn : n ≤ s.size
   size : s.size ≤ s'.size
   cls : ∀ a, a < s.size → s'.cls a = s.cls a
-  get : ∀ a f, a < n → f.benign = false → s'.get a f = s.get a f
-  log : ∀ w, w ∈ s'.log → w ∈ s.log ∨ n ≤ w.1 ∨ w.2.benign = true
+  get : ∀ a f, a < n → f.exempt = false → s'.get a f = s.get a f
+  log : ∀ w, w ∈ s'.log → w ∈ s.log ∨ n ≤ w.1 ∨ w.2.exempt = true
 
 lemma Step.refl {n : Nat} {s : St} (h : n ≤ s.size) : Step n s s :=
   ⟨h, Nat.le_refl _, fun _ _ => rfl, fun _ _ _ _ => rfl, fun _ hw => Or.inl hw⟩
@@ -114,7 +115,7 @@ lemma step_alloc {n : Nat} {s : St} (h : n ≤ s.size) (o : Obj) : Step n s (s.a
   log := fun w hw => Or.inl hw
 
 lemma step_write {n : Nat} {s : St} (h : n ≤ s.size) (a : Nat) (f : Fld) (v : Val)
-    (ha : n ≤ a ∨ f.benign = true) : Step n s (s.write a f v) where
+    (ha : n ≤ a ∨ f.exempt = true) : Step n s (s.write a f v) where
   hn := h
   size := by rw [write_size]; exact Nat.le_refl _
   cls := fun a' _ => write_cls s a a' f v
@@ -131,7 +132,7 @@ lemma step_write {n : Nat} {s : St} (h : n ≤ s.size) (a : Nat) (f : Fld) (v : 
 
 /-- conditional write -/
 lemma step_ite_write {n : Nat} {s : St} (h : n ≤ s.size) (c : Prop) [Decidable c] (a : Nat) (f : Fld) (v : Val)
-    (ha : n ≤ a ∨ f.benign = true) : Step n s (if c then s else s.write a f v) := by
+    (ha : n ≤ a ∨ f.exempt = true) : Step n s (if c then s else s.write a f v) := by
   split
   · exact Step.refl h
   · exact step_write h a f v ha
@@ -405,6 +406,25 @@ lemma condList_spec {n : Nat} (kw : Kw) (j : Nat) (hj : n ≤ j) :
       rw [heq] at h1
       exact ⟨h1, fun ds hds => absurd hds (by simp)⟩
 
+/-- `density._constant += x` on a fresh density `d`: the field is re-bound on `d` (fresh); an
+    array-typed constant is additionally mutated in place (exempt field `cval` of a possibly old,
+    shared array object). -/
+lemma addConst_step {n : Nat} {s : St} (h : n ≤ s.size) (d : Nat) (ds : List Nat) (hd : n ≤ d) :
+    Step n s (s.addConst d ds) := by
+  unfold St.addConst
+  split
+  · next cell _ =>
+    dsimp only
+    have h1 : Step n s (if s.hasEvals ds = true then s.write cell .cval (.num (s.constOf d + s.sumEvals ds)) else s) := by
+      split
+      · exact step_write h cell .cval _ (Or.inr rfl)
+      · exact Step.refl h
+    exact h1.trans (step_write h1.le d .const _ (Or.inl hd))
+  · split
+    · have h1 := step_alloc h (Obj.ofList .arr [(.cval, .num (s.constOf d + s.sumEvals ds))])
+      exact h1.trans (step_write h1.le d .const _ (Or.inl hd))
+    · exact step_write h d .const _ (Or.inl hd)
+
 lemma reduce_good {n : Nat} {s : St} (h : n ≤ s.size) (j : Nat) (hj : n ≤ j) (ds : List Nat)
     (hds : ∀ d ∈ ds, EntryOk n s d) :
     Step n s (s.reduce j ds).1 ∧ ∀ r, (s.reduce j ds).2 = .obj r → n ≤ r := by
@@ -428,14 +448,14 @@ lemma reduce_good {n : Nat} {s : St} (h : n ≤ s.size) (j : Nat) (hj : n ≤ j)
   · next d l hd hl =>
     split
     · have h1 := step_alloc h (Obj.ofList .post [(.lik, .ref l), (.prior, .ref d), (.const, .num 0)])
-      refine ⟨h1.trans (step_write h1.le _ .const _ (Or.inl (by rw [alloc_addr]; exact h))), ?_⟩
+      refine ⟨h1.trans (addConst_step h1.le _ ds (by rw [alloc_addr]; exact h)), ?_⟩
       intro r hr
       simp only [alloc_addr, Res.obj.injEq] at hr
       omega
     · exact ⟨Step.refl h, fun r hr => by simp only [Res.obj.injEq] at hr; omega⟩
   · next d hd hl =>
     have hdn : n ≤ d := hdist d (by rw [hd]; simp)
-    exact ⟨step_write h d .const _ (Or.inl hdn), fun r hr => by simp only [Res.obj.injEq] at hr; omega⟩
+    exact ⟨addConst_step h d ds hdn, fun r hr => by simp only [Res.obj.injEq] at hr; omega⟩
   · next l hd hl =>
     have hln : n ≤ l := hlik l (by rw [hl]; simp)
     exact ⟨Step.refl h, fun r hr => by simp only [Res.obj.injEq] at hr; omega⟩
@@ -642,6 +662,13 @@ lemma applyModel_step {n : Nat} {s : St} (h : n ≤ s.size) (m d : Nat) : Step n
     exact h1.trans (step_write h1.le _ .args _ (Or.inl (by rw [alloc_addr]; exact h)))
   · exact Step.refl h
 
+lemma mkJoint_step {n : Nat} {s : St} (h : n ≤ s.size) (ds : List Nat) : Step n s (s.mkJoint ds).1 := by
+  unfold St.mkJoint
+  dsimp only
+  split
+  · exact step_alloc h _
+  · exact Step.refl h
+
 lemma run_step {n : Nat} {s : St} (h : n ≤ s.size) (op : Op) : Step n s (s.run op).1 := by
   cases op with
   | cond a kw => exact condAny_step h a kw
@@ -650,6 +677,7 @@ lemma run_step {n : Nat} {s : St} (h : n ≤ s.size) (op : Op) : Step n s (s.run
   | sample a => exact sampleAny_step h a
   | tolik a data => exact toLikAny_step h a data
   | apply m d => exact applyModel_step h m d
+  | mkjoint ds => exact mkJoint_step h ds
 
 lemma runAll_step {n : Nat} : ∀ (ops : List Op) (s : St), n ≤ s.size → Step n s (s.runAll ops) := by
   intro ops
@@ -663,10 +691,10 @@ lemma runAll_step {n : Nat} : ∀ (ops : List Op) (s : St), n ≤ s.size → Ste
 
 /-! ## fingerprints and names read only non-benign fields of old objects -/
 
-lemma fpFields_nonbenign : ∀ f ∈ fpFields, f.benign = false := by decide
+lemma fpFields_nonbenign : ∀ f ∈ fpFields, f.exempt = false := by decide
 
 lemma fp_congr (n : Nat) (s s' : St)
-    (h : ∀ a, a < n → s'.cls a = s.cls a ∧ ∀ f, f.benign = false → s'.get a f = s.get a f) :
+    (h : ∀ a, a < n → s'.cls a = s.cls a ∧ ∀ f, f.exempt = false → s'.get a f = s.get a f) :
     ∀ (fuel a : Nat), fp n fuel s' a = fp n fuel s a := by
   intro fuel
   induction fuel with
@@ -692,7 +720,7 @@ lemma fp_congr (n : Nat) (s s' : St)
 lemma Step.fp_eq {n : Nat} {s s' : St} (h : Step n s s') (fuel a : Nat) : fp n fuel s' a = fp n fuel s a :=
   fp_congr n s s' (fun a ha => ⟨h.cls a (Nat.lt_of_lt_of_le ha h.hn), fun f hf => h.get a f ha hf⟩) fuel a
 
-lemma nameOf_congr (n : Nat) (s s' : St) (h : ∀ a f, a < n → f.benign = false → s'.get a f = s.get a f) :
+lemma nameOf_congr (n : Nat) (s s' : St) (h : ∀ a f, a < n → f.exempt = false → s'.get a f = s.get a f) :
     ∀ a, a < n → s'.nameOf a = s.nameOf a := by
   intro a
   induction a using Nat.strongRecOn with
